@@ -437,3 +437,120 @@ func checkPermanentIDKept(c *Ctx) {
 	_ = idx0
 	_ = whole
 }
+
+// ---------------- C24.R6 (round 4 seed C24-G): each hash input is built on its own storage ----------------
+
+// checkHashInputsNotAliased: Algorithms 11/12 hash "password ‖ validation salt" and "password ‖ key salt". In Go,
+// append(pw, salt...) writes into pw's spare capacity when there is some, so two appends on the same base slice share
+// storage and the second overwrites the salt of the first. In the four AES-256 validators no slice value is the first
+// argument of more than one append call unless it is a fresh empty literal ([]byte{} / make with length 0 / nil).
+func checkHashInputsNotAliased(c *Ctx) {
+	p, r := c.P, c.R
+	for _, fid := range []string{"pkg/pdfcpu.validateUserPasswordAES256", "pkg/pdfcpu.validateOwnerPasswordAES256", "pkg/pdfcpu.validateUserPasswordAES256Rev6", "pkg/pdfcpu.validateOwnerPasswordAES256Rev6"} {
+		fn := p.Func(fid)
+		if fn == nil {
+			r.Bad("C24.R6", fid, "anchor", "", "UNRESOLVED-ANCHOR")
+			continue
+		}
+		bases := map[ssa.Value][]*ssa.Call{}
+		eachInstr(fn, func(_ *ssa.BasicBlock, _ int, i ssa.Instruction) {
+			call, ok := i.(*ssa.Call)
+			if !ok {
+				return
+			}
+			if b, ok := call.Call.Value.(*ssa.Builtin); !ok || b.Name() != "append" || len(call.Call.Args) == 0 {
+				return
+			}
+			base := call.Call.Args[0]
+			switch x := base.(type) {
+			case *ssa.Const:
+				return // nil
+			case *ssa.Slice:
+				if _, isAlloc := x.X.(*ssa.Alloc); isAlloc {
+					return // a fresh literal
+				}
+			case *ssa.MakeSlice:
+				return
+			}
+			bases[base] = append(bases[base], call)
+		})
+		// the value chain of an append: its result and the appends built on it
+		chainOf := func(c0 *ssa.Call) map[ssa.Value]bool {
+			ch := map[ssa.Value]bool{c0: true}
+			for changed := true; changed; {
+				changed = false
+				for v := range ch {
+					if v.Referrers() == nil {
+						continue
+					}
+					for _, rf := range *v.Referrers() {
+						switch x := rf.(type) {
+						case *ssa.Call:
+							if b, ok := x.Call.Value.(*ssa.Builtin); ok && b.Name() == "append" && len(x.Call.Args) > 0 && x.Call.Args[0] == v && !ch[x] {
+								ch[x] = true
+								changed = true
+							}
+						case *ssa.Phi:
+							if !ch[x] {
+								ch[x] = true
+								changed = true
+							}
+						}
+					}
+				}
+			}
+			return ch
+		}
+		after := func(i ssa.Instruction, c2 *ssa.Call) bool {
+			if i.Block() == c2.Block() {
+				pi, pc := -1, -1
+				for k, in := range i.Block().Instrs {
+					if in == i {
+						pi = k
+					}
+					if in == ssa.Instruction(c2) {
+						pc = k
+					}
+				}
+				return pi > pc
+			}
+			return c2.Block().Dominates(i.Block())
+		}
+		liveAcross := func(calls []*ssa.Call) bool {
+			for _, c1 := range calls {
+				for _, c2 := range calls {
+					if c1 == c2 {
+						continue
+					}
+					for v := range chainOf(c1) {
+						if v.Referrers() == nil {
+							continue
+						}
+						for _, rf := range *v.Referrers() {
+							if rf == ssa.Instruction(c2) {
+								continue
+							}
+							if _, isDbg := rf.(*ssa.DebugRef); isDbg {
+								continue
+							}
+							if after(rf, c2) && !after(ssa.Instruction(c1), c2) {
+								return true
+							}
+						}
+					}
+				}
+			}
+			return false
+		}
+		bad := false
+		for base, calls := range bases {
+			if len(calls) > 1 && liveAcross(calls) {
+				bad = true
+				r.Bad("C24.R6", fid, "hash inputs built on their own storage", p.Pos(calls[1].Pos()), "the slice "+exprName(base)+" is the base of "+fmt.Sprint(len(calls))+" append calls: when it has spare capacity the appends share storage and the later salt overwrites the earlier one — the validation hash is then computed over the key salt and the correct password is rejected for some password lengths")
+			}
+		}
+		if !bad {
+			r.OK("C24.R6", fid, "hash inputs built on their own storage", p.Pos(fn.Pos()), "no slice is the base of two appends whose results are alive at the same time", true)
+		}
+	}
+}
